@@ -490,3 +490,44 @@ func zzUnquoteName(q string) (string, bool) {
 	}
 	return sb.String(), true
 }
+
+// ZZPush models `git push <remote> <ref>:<ref>...` without '+': every
+// reference is updated on its own, a non-fast-forward update is rejected (the
+// others still happen) and the command then fails.
+func ZZPush(r *Repository, remoteName string, refs []string) error {
+	remote := ZZRemotes[r][remoteName]
+	if remote == nil {
+		return errors.New("fatal: No such remote")
+	}
+	local := zzStore(r)
+	rejected := false
+	for _, ref := range refs {
+		tip := local.Ref(ref)
+		if tip == nil {
+			return errors.New("error: src refspec " + ref + " does not match any")
+		}
+		if old := remote.Ref(ref); old != nil && !local.IsAncestor(tip, old) {
+			rejected = true
+			continue
+		}
+		remote.CopyCommitsFrom(local, tip)
+		remote.SetRef(ref, tip)
+	}
+	if rejected {
+		return errors.New("! [rejected] (non-fast-forward): failed to push some refs")
+	}
+	return nil
+}
+
+// ZZFetchObject models `git fetch <remote> <id>`.
+func ZZFetchObject(r *Repository, remoteName string, objectID Hash) error {
+	remote := ZZRemotes[r][remoteName]
+	if remote == nil {
+		return errors.New("fatal: No such remote")
+	}
+	if !remote.HasObject(objectID) {
+		return errors.New("fatal: remote error: upload-pack: not our ref " + objectID.String())
+	}
+	zzStore(r).CopyCommitsFrom(remote, objectID)
+	return nil
+}
